@@ -430,7 +430,9 @@ class PossibleFragmentSpreadsChecker(ValidationVisitor):
     def enter_fragment_spread(self, node):
         name = node.name.value
         frag_type = self._fragment_types.get(name, None)
-        parent_type = self.type_info.type
+        # The (unwrapped) type of the enclosing selection set, `type_info.type`
+        # is the declared type of the enclosing field, wrappers included.
+        parent_type = self.type_info.parent_type
 
         if (
             isinstance(frag_type, GraphQLCompositeType)
